@@ -175,7 +175,7 @@ def ipm_cuts(rep, wd, tier, seed):
 
 
 def run(rep, wd, tier, seed):
-    rep.assumptions += ['TLC 1.8 evaluates the TLA+ text correctly', 'file objects are io.BytesIO']
+    rep.assumptions += ['TLC 1.8 evaluates the TLA+ text correctly', 'file objects: in-memory buffers, real files, pipes-like streams, gzip file objects (harness/drv.py)']
     vbsc.model_check(rep, wd, tier, invariants=('TruncInv', 'ReadBackInv'), props=())
     nfiles = 36 if tier == 'thorough' else 6
     # one long unblocked file (several I/O buffers long) read from disk: complete, and cut at offsets around the
